@@ -4,8 +4,8 @@ from ..core import Violation
 from .. import rolllog_common as rc
 
 ID = 'C13'
-MODULES = ['OFModel.RollLog']
-PROP_FILES = ['C13', 'C13Stream']
+MODULES = ['OFModel.RollLog', 'OFModel.RollBuf']
+PROP_FILES = ['C13', 'C13Stream', 'C13RollBuf']
 RULE = ('op sequences (<= 40 ops quick, <= 200 thorough) on one writable RollLog and one read-only RollLog in a fresh temp directory: mode in '
         '{bin, binl, txt, json} x file_size in {1..100} x total_size from 1 byte (< one file) to unlimited x autorefresh on/off; ops = write '
         '(single/iterable/embedded-newline/bytearray/memoryview/empty payloads; explicit timestamps increasing by 0.4 us..100 s, equal, or '
@@ -17,7 +17,18 @@ RULE = ('op sequences (<= 40 ops quick, <= 200 thorough) on one writable RollLog
         'written, without repetition, and skips only records whose file was unlinked when the reader passed them')
 ASSUMPTIONS = ['one writer per directory (RollLog docstring); other processes only delete files',
                'write(flush=True) (the default): other file handles see whole records only; calls are atomic (every method holds self.lock); '
-               'write(flush=False): checked on the real class only (noflush_campaign: the bytes another handle sees are a whole number of records)',
+               'write(flush=False) / RollLog(flush=False): the file object\'s buffer is modelled in lean/OFModel/RollBuf.lean (CPython io.BufferedWriter over a regular file: '
+               'data that fits the free part of the buffer is buffered, else the buffer is written out and data longer than the buffer goes straight to the file, '
+               'shorter data into the empty buffer; raw writes are complete; the data of one write call is never cut) below the writer side of RollLog.write/flush/close '
+               '(one write_file.write per call, roll-over by the accounted size, flush iff the effective flag). Proved for every op sequence, record size, buffer size '
+               'and file_size (lean/OFProps/C13RollBuf.lean): C13_buf_whole_records (other handles see whole records only: the bytes on disk are a prefix of the written '
+               'stream ending at a record boundary, file by file), C13_buf_nothing_lost, C13_buf_flush_complete (after write(flush=True), flush(), close(), roll-over: '
+               'everything is on disk), C13_buf_order, C13_buf_two_calls_torn (negative: record and delimiter handed over with two calls tear), C13_buf_refines_flushed '
+               '(with the flag set the buffered writer produces exactly the inodes of OFModel/RollLog.lean, for every op sequence without writer restart/crash from the '
+               'empty directory), C13_buf_vs_flushed. Tie: noflush_campaign replays every case through driver op c13.buf and compares, after every call, every file\'s '
+               'byte length as another handle sees it (os.stat) and the return value; the buffer size is measured on the running interpreter (4096 = st_blksize here, '
+               'not io.DEFAULT_BUFFER_SIZE). Not modelled: death of the process with a non-empty buffer, short raw writes / ENOSPC, a reader following an unflushed writer '
+               '(the reader theorems are about the flushed writer)',
                'a log file name is identified with the integer microsecond value it starts with; one prefix/suffix/time zone per directory',
                'bin mode has no record delimiters: a record is one written chunk, reads return concatenations of whole chunks, seeks only go to told offsets',
                'the log directory itself is not removed; clock later than every existing file (constructor time-traveller check not modelled)',
@@ -73,51 +84,157 @@ def gen_case(rng, max_ops=40):
     return case
 
 
+def probe_buffer_size(d='.'):
+    """Size of the buffer of the file object `open(path, 'wb')` returns for a file in directory `d`, measured on the running interpreter: bytes are
+    written one at a time until the file is no longer empty for another handle (os.stat) - a BufferedWriter passes its buffer on when the next byte does not fit."""
+    import os, tempfile
+    fd, path = tempfile.mkstemp(prefix='c13cap', dir=d); os.close(fd)
+    try:
+        with open(path, 'wb') as f:
+            n = 0
+            while os.stat(path).st_size == 0 and n < (1 << 22):
+                f.write(b'x'); n += 1
+            return os.stat(path).st_size or None
+    finally:
+        os.unlink(path)
+
+
+def nf_payload(mode, k, size, many, exact):
+    """(data for RollLog.write, raw bytes that must reach the file, lengths of the raw records) of write number k.  `exact`: `size` is the wanted length of
+    everything the call writes (as far as the framing allows); else it is the length of the padding."""
+    import json
+    pre = '%d:' % k
+    many = bool(many) and mode != 'json'
+    if exact: size = max(0, size - len(pre) - (9 if mode == 'json' else 3 if many else 1))
+    body = pre + 'x' * size
+    if mode == 'json':
+        raw = json.dumps({'k': body}, separators=(',', ':')).encode() + b'\n'
+        return {'k': body}, raw, [len(raw)]
+    if many: return ([body, 'b'] if mode == 'txt' else [body.encode(), b'b']), body.encode() + b'\nb\n', [len(body.encode()) + 1, 2]
+    return (body if mode == 'txt' else body.encode()), body.encode() + b'\n', [len(body.encode()) + 1]
+
+
+def nf_gen_case(rng, cap):
+    """One unflushed-writer case.  'recs': a list of [size, many, flush] (size = padding length), [size, many, flush, 'len'] (size = byte length of the whole
+    call) or the strings 'flush' / 'close' (explicit calls; writes after 'close' must raise)."""
+    SIZES = [0, 1, 7, 100, 900, 4000, 8100, 8191, 8192, 8193, 9000, 20000, 70000]
+    EXACT = [cap - 1, cap, cap + 1, cap - 1, cap, cap + 1, 2 * cap - 1, 2 * cap, 2 * cap + 1, cap // 2, cap // 4, cap - cap // 4, 3 * cap, 3, 12, cap // 8, cap + cap // 2]
+    mode = rng.choice(['binl', 'txt', 'json'])
+    c = {'kind': 'noflush', 'mode': mode, 'file_size': rng.choice([30_000, 100_000, 10**7, 10**7, 3 * cap + 5, 2 * cap, 10 * cap]), 'ctor': rng.random() < 0.5}
+    recs, shape = [], rng.random()
+    def fl(p=0.1): return rng.random() < p
+    if shape < 0.35:      # legacy shape: padding lengths, unrelated to the buffer size
+        recs = [[rng.choice(SIZES), rng.random() < 0.15, fl()] for _ in range(rng.randint(3, 14))]
+    elif shape < 0.55:    # several small records filling the buffer exactly, then one more of a critical size
+        for _ in range(rng.randint(1, 3)):
+            m = rng.choice([2, 4, 8, 16])
+            recs += [[cap // m, False, False, 'len'] for _ in range(m)]
+            if rng.random() < 0.2: recs.append('flush')
+            recs.append([rng.choice([12, cap - 1, cap, cap + 1, 2 * cap, cap // m]), rng.random() < 0.1, fl(), 'len'])
+    else:                 # lengths around the buffer size
+        for _ in range(rng.randint(3, 14)):
+            r = rng.random()
+            if r < 0.07: recs.append('flush')
+            elif r < 0.75: recs.append([rng.choice(EXACT), rng.random() < 0.1, fl(), 'len'])
+            elif r < 0.85: recs.append([max(3, rng.choice(EXACT) + rng.choice([-2, -1, 1, 2])), rng.random() < 0.1, fl(), 'len'])
+            else: recs.append([rng.choice(SIZES), rng.random() < 0.15, fl()])
+    if rng.random() < 0.12:
+        recs.insert(rng.randint(1, len(recs)), 'close')
+        recs.append([rng.choice([5, cap + 1]), False, fl(), 'len'])
+    c['recs'] = recs
+    return c
+
+
 def noflush_campaign(ctx, n):
     """Writer that does NOT flush after every write (flush=False at construction or per call; Python's buffered file object decides when bytes reach the
     file): whatever another file handle sees after any write is still a whole number of records, in writing order - a record and its delimiter reach
     the file together, whatever the record size (also records larger than the file object's buffer) - and everything is there after flush() / close().
-    Harness oracle on the REAL class (unflushed buffers are not in the Lean model); key 'torn-record-on-disk'."""
-    import builtins, json, os, tempfile, shutil
+    Harness oracle on the REAL class, key 'torn-record-on-disk'.
+    Tie to the Lean model of the file object's buffer (OFModel/RollBuf.lean, theorems C13_buf_* in OFProps/C13RollBuf.lean): every case is replayed through
+    driver op c13.buf and, after every call, the byte length of every file as another handle sees it (os.stat) and the return value / RuntimeError are compared
+    with the model's; the buffer size is measured on the running interpreter (probe_buffer_size), lengths are chosen around it."""
+    import builtins, os, tempfile, shutil
     from openfilter.filter_runtime.rolllog import RollLog
     res, rng = ctx.result, ctx.rng
-    SIZES = [0, 1, 7, 100, 900, 4000, 8100, 8191, 8192, 8193, 9000, 20000, 70000]
+    cap = probe_buffer_size('.')
+    if not cap:
+        res.disagreements.append({'point': 'c13.buf.cap', 'case': None, 'impl': cap, 'model': 'a buffered file object with a finite buffer'}); cap = 8192
     if ctx.replay: cases = [ctx.replay['case']] if (ctx.replay.get('case') or {}).get('kind') == 'noflush' else []
-    else:
-        cases = []
-        for i in range(n):
-            mode = rng.choice(['binl', 'txt', 'json'])
-            cases.append({'kind': 'noflush', 'mode': mode, 'file_size': rng.choice([30_000, 100_000, 10**7]), 'ctor': rng.random() < 0.5,
-                          'recs': [[rng.choice(SIZES), rng.random() < 0.15, rng.random() < 0.1] for _ in range(rng.randint(3, 14))]})
+    else: cases = [nf_gen_case(rng, cap) for _ in range(n)]
+    reqs, seen, dist = [], [], {'over_cap': 0, 'eq_cap': 0, 'fills_exactly': 0, 'rollovers': 0, 'flush_calls': 0, 'writes': 0, 'after_close': 0}
+
+    def listing(d):
+        names = sorted(os.listdir(d), key=lambda f: rc.us_of_name(f) or 0)
+        disk, sizes = b'', []
+        for fn in names:
+            sizes.append(os.stat(os.path.join(d, fn)).st_size)
+            with builtins.open(os.path.join(d, fn), 'rb') as f: disk += f.read()
+        return disk, sizes
+
     for c in cases:
         d = tempfile.mkdtemp(prefix='c13nf', dir='.')
+        mops, obs = [], []
         try:
-            w = RollLog(d, c['mode'], file_size=c['file_size'], total_size=10**9, **({'flush': False} if c['ctor'] else {}))
-            want, ts, bad = b'', 1000.0, None
-            for k, (size, many, fl) in enumerate(c['recs']):
-                body = ('%d:' % k + 'x' * size)
-                if c['mode'] == 'json': data, raw = {'k': body}, json.dumps({'k': body}, separators=(',', ':')).encode() + b'\n'
-                elif many: data, raw = ([body, 'b'] if c['mode'] == 'txt' else [body.encode(), b'b']), body.encode() + b'\nb\n'
-                else: data, raw = (body if c['mode'] == 'txt' else body.encode()), body.encode() + b'\n'
+            w = RollLog(d, c['mode'], file_size=c['file_size'], total_size=10**12, **({'flush': False} if c['ctor'] else {}))
+            want, ts, bad, rid, closed, unflushed = b'', 1000.0, None, 0, False, 0
+            for k, e in enumerate(c['recs']):
+                if isinstance(e, str):
+                    if e == 'close': w.close(); closed = True
+                    else: w.flush(); dist['flush_calls'] += 1
+                    mops.append({'o': e}); unflushed = 0
+                    disk, sizes = listing(d)
+                    obs.append({'res': {'r': 'ok'}, 'files': sizes})
+                    if disk != want:
+                        bad = 'after %s() (op %d) the files hold %d bytes, written %d' % (e, k, len(disk), len(want)); break
+                    continue
+                size, many, fl = e[0], e[1], e[2]
+                data, raw, lens = nf_payload(c['mode'], k, size, many, len(e) > 3 and e[3] == 'len')
                 ts += 1.0
-                w.write(data, ts, **({} if c['ctor'] and not fl else {'flush': bool(fl)}))
-                want += raw
-                disk = b''
-                for fn in sorted(os.listdir(d), key=lambda f: rc.us_of_name(f) or 0):
-                    with builtins.open(os.path.join(d, fn), 'rb') as f: disk += f.read()
+                mops.append({'o': 'write', 'recs': [[rid + i, n_] for i, n_ in enumerate(lens)], 'flush': bool(fl)})
+                try:
+                    ret = w.write(data, ts, **({} if c['ctor'] and not fl else {'flush': bool(fl)}))
+                    r = {'r': 'wrote', 'n': ret}
+                except RuntimeError as exc:
+                    r = {'r': 'err', 'e': type(exc).__name__}
+                if r['r'] == 'wrote':
+                    want += raw; rid += len(lens); dist['writes'] += 1
+                    dist['over_cap'] += len(raw) > cap; dist['eq_cap'] += len(raw) == cap
+                    unflushed = 0 if fl else unflushed + len(raw)
+                    dist['fills_exactly'] += unflushed == cap
+                elif closed: dist['after_close'] += 1
+                disk, sizes = listing(d)
+                obs.append({'res': r, 'files': sizes})
+                if closed != (r['r'] == 'err'):
+                    bad = 'write %d on a%s log: %s' % (k, ' closed' if closed else 'n open', r); break
                 if not (want.startswith(disk) and (disk == b'' or disk.endswith(b'\n')) and (not fl or disk == want)):
                     bad = 'after write %d (%d bytes, flush=%s): the files hold %d bytes ending %r - not a whole number of the records written so far' % (k, len(raw), bool(fl), len(disk), disk[-12:]); break
             if bad is None:
                 w.close()
-                disk = b''
-                for fn in sorted(os.listdir(d), key=lambda f: rc.us_of_name(f) or 0):
-                    with builtins.open(os.path.join(d, fn), 'rb') as f: disk += f.read()
+                disk, sizes = listing(d)
+                mops.append({'o': 'close'}); obs.append({'res': {'r': 'ok'}, 'files': sizes})
                 if disk != want: bad = 'after close the files hold %d bytes, written %d' % (len(disk), len(want))
+            dist['rollovers'] += max(0, len(listing(d)[1]) - 1)
             if bad: res.violations.append(Violation('torn-record-on-disk', bad, c))
-            res.note(c, any(s > 8192 for s, _, _ in c['recs']))
+            res.note(c, any(sum(m_[1] for m_ in m['recs']) > cap for m in mops if m['o'] == 'write'))
+            reqs.append({'op': 'c13.buf', 'cap': cap, 'file_size': c['file_size'], 'calls': 1, 'ops': mops}); seen.append((c, obs))
         finally:
             shutil.rmtree(d, ignore_errors=True)
-    res.extra['noflush'] = {'cases': len(cases), 'record_sizes': SIZES}
+    tied = 0
+    if ctx.driver and reqs:
+        for (c, obs), m in zip(seen, ctx.driver.batch(reqs)):
+            tr = m.get('trace')
+            if tr is None:
+                res.disagreements.append({'point': 'c13.buf', 'case': c, 'impl': None, 'model': m}); continue
+            # the model has one entry per op; the implementation stops at the first oracle failure
+            mod = [{'res': t['res'], 'files': t['files']} for t in tr[:len(obs)]]
+            # an open file that holds nothing yet is listed by both; the model lists no file before the first write, nor does the directory
+            diff = next((i for i, (a, b) in enumerate(zip(obs, mod)) if a != b), None)
+            if diff is None and len(mod) == len(obs): res.traces_validated += 1; tied += 1
+            else:
+                i = diff if diff is not None else min(len(mod), len(obs))
+                res.disagreements.append({'point': 'c13.buf', 'case': c, 'impl': obs[i] if i < len(obs) else None, 'model': mod[i] if i < len(mod) else None,
+                                          'at': {'step': i, 'cap': cap}})
+    res.extra['noflush'] = {'cases': len(cases), 'buffer_size_measured': cap, 'tied_to_model': tied, 'distribution': dist}
 
 
 def run(ctx):
